@@ -77,9 +77,9 @@ func failoverPhase(env *core.Env, res *core.Result) {
 	for t := range r.StartTraces {
 		res.MarkDistinct("failover-start|" + t)
 	}
-	if !r.Quiesced {
+	if !r.Quiesced && len(r.Viol) == 0 {
 		res.Inconclusive = append(res.Inconclusive, fmt.Sprintf("failover run %d: %v", env.From, r.Notes))
-	} else {
+	} else if r.Quiesced {
 		res.Count("failover_runs_quiesced", 1)
 	}
 	for _, v := range r.Viol {
